@@ -38,8 +38,10 @@ def cases(tier):
     # ones (indicator features with disjoint supports, so the spectrum is known in closed form)
     for per in (2, 3):
         for var in ('hosvd', 'hocur'):
-            for ratio in (1.4e-3, 1.6e-3):
+            for ratio in (1.4e-3, 1.6e-3, 3e-4, 5e-4):
                 cs = {'near': True, 'per': per, 'ratio': ratio, 'var': var, 'd': 3, 'm': 4 * per + 1, 'ws': [], 'iset': [[list(range(4 * per)), list(range(1, 4 * per + 1))]]}
+                if ratio < 1e-3:
+                    cs['count_only'] = True      # a direction 2-3 times BELOW the 1e-3 cut: it has to be discarded (number of eigenvalues)
                 if var == 'hosvd':
                     cs.update({'thr': 1e-12, 'mr': 'inf', 'fl': [0, 0]})
                 yield cs
@@ -203,6 +205,8 @@ def run_case(case, seed):
                 wnz = w[idx]
                 want = np.real(wnz[np.argsort(np.abs(wnz - 1))])
                 r.true(key + ':eigenvalue-count', k == int(np.sum(rel > 1e-3)), '%d eigenvalues, rank at the 1e-3 cut %d' % (k, int(np.sum(rel > 1e-3))))
+                if case.get('count_only'):
+                    continue
                 # the order by |lambda - 1| is well defined unless two eigenvalues that are not complex conjugates of each other
                 # are (nearly) equidistant from 1; conjugate pairs tie but have the same real part
                 dist = np.abs(wnz - 1)
